@@ -292,6 +292,11 @@ def run(ctx):
     # emms): the prefix that tells `pxor %xmm` from `pxor %mm` is chosen from the operands' register bank (shared with C12)
     from x86enc import check_bank_prefix
     check_bank_prefix(db, rep, "D9-BANK-PREFIX")
+    # D10: "writes no memory outside destination arrays ...": a store's displacement is emitted as one byte only where it lies in
+    # [-128, 127]; +128 squeezed into a byte is -128, i.e. a write in front of the array (rules shared with C12 D6 / C05 D1g)
+    from x86enc import check_disp8, check_rel8_predicates
+    check_disp8(db, rep, "D10-DISP8-RANGE")
+    check_rel8_predicates(db, rep, "D10-DISP8-RANGE")
     # D7: the generated loops process exactly ex->n elements: the region counters tile n on every emitted path (shared with
     # C03 D10) - otherwise the function writes past the end of its destination arrays
     import emitsym
